@@ -10,7 +10,9 @@ import (
 	"net/http"
 	"net/http/httptest"
 	"net/netip"
+	"sort"
 	"strings"
+	"sync"
 	"testing"
 	"time"
 
@@ -195,6 +197,73 @@ func c06SeqRun(f []string) []string {
 		h(w, httptest.NewRequest(m, "/control/rewrite/x", strings.NewReader(`{"domain": "x.com", "answer":`)))
 
 		return append([]string{vutil.Itoa(w.Code)}, c06SeqDump()...)
+	case "C06.race":
+		// Lookups race the real update handler, which flips one entry between
+		// its old and new value (an odd number of times, so that the update
+		// has happened in the end).  Every distinct answer seen is reported.
+		td, ta, ud, ua := vutil.Unhex(f[1]), vutil.Unhex(f[2]), vutil.Unhex(f[3]), vutil.Unhex(f[4])
+		host, qt, iters := vutil.Unhex(f[7]), uint16(vutil.Atoi(f[8])), vutil.Atoi(f[9])
+		us := c06Stored([2]string{ud, ua})
+		seen := map[string]struct{}{}
+		var mu sync.Mutex
+		var wg sync.WaitGroup
+		done := make(chan struct{})
+		for g := 0; g < 2; g++ {
+			wg.Add(1)
+			go func() {
+				defer wg.Done()
+				local := map[string]struct{}{}
+				for i := 0; i < iters; i++ {
+					out := c06Fmt(d.processRewrites(host, qt))
+					chk, _ := d.CheckHost(host, qt, c06SeqSett)
+					local[strings.Join(append(out, c06Fmt(chk)...), "\t")] = struct{}{}
+				}
+				mu.Lock()
+				for k := range local {
+					seen[k] = struct{}{}
+				}
+				mu.Unlock()
+			}()
+		}
+		go func() { wg.Wait(); close(done) }()
+		flips, status := 0, ""
+		flip := func() {
+			if flips%2 == 0 {
+				status = c06SeqHTTP(d.handleRewriteUpdate, http.MethodPut, rewriteUpdateJSON{
+					Target: rewriteEntryJSON{Domain: td, Answer: ta},
+					Update: rewriteEntryJSON{Domain: ud, Answer: ua},
+				})
+			} else {
+				c06SeqHTTP(d.handleRewriteUpdate, http.MethodPut, rewriteUpdateJSON{
+					Target: rewriteEntryJSON{Domain: us[0], Answer: us[1]},
+					Update: rewriteEntryJSON{Domain: td, Answer: ta},
+				})
+			}
+			flips++
+		}
+	loop:
+		for {
+			select {
+			case <-done:
+				break loop
+			default:
+				flip()
+			}
+		}
+		if flips%2 == 0 {
+			flip()
+		}
+		keys := make([]string, 0, len(seen))
+		for k := range seen {
+			keys = append(keys, k)
+		}
+		sort.Strings(keys)
+		out := []string{status, vutil.Itoa(len(keys))}
+		for _, k := range keys {
+			out = append(out, vutil.Hex(k))
+		}
+
+		return append(out, c06SeqDump()...)
 	case "C06.add":
 		st := c06SeqHTTP(d.handleRewriteAdd, http.MethodPost,
 			rewriteEntryJSON{Domain: vutil.Unhex(f[1]), Answer: vutil.Unhex(f[2])})
@@ -243,9 +312,51 @@ func c06Stored(e [2]string) [2]string {
 	return [2]string{dom, strings.ToLower(e[1])}
 }
 
+// c06RaceBlock: a chain through the entry that is edited while the alias is
+// being resolved (x -> y edited to y -> address, x -> y edited to x -> z, ...).
+func c06RaceBlock(r *rand.Rand, emit vutil.Emit) {
+	n := []string{"x.race.com", "y.race.com", "z.race.com", "w.race.com"}
+	r.Shuffle(len(n), func(i, j int) { n[i], n[j] = n[j], n[i] })
+	x, y, z := n[0], n[1], n[2]
+	addr := vutil.Pick(r, []string{"9.9.9.9", "2001:db8::9"})
+	tbl := [][2]string{{x, y}}
+	var upd [2]string
+	switch r.IntN(4) {
+	case 0: // x -> y becomes y -> addr
+		upd = [2]string{y, addr}
+	case 1: // x -> y becomes x -> z, z has an address
+		tbl = append(tbl, [2]string{z, "1.1.1.1"})
+		upd = [2]string{x, z}
+	case 2: // x -> y becomes y -> z, z has an address
+		tbl = append(tbl, [2]string{z, "1.1.1.2"}, [2]string{"*.race.com", "0.0.0.0"})
+		upd = [2]string{y, z}
+	default: // x -> y becomes y -> "A" exception, y already has addresses
+		tbl = append(tbl, [2]string{y, "1.1.1.1"})
+		upd = [2]string{y, "A"}
+	}
+	r.Shuffle(len(tbl), func(i, j int) { tbl[i], tbl[j] = tbl[j], tbl[i] })
+	f := []string{"C06.reset", "0", "0", vutil.Itoa(len(tbl))}
+	for _, e := range tbl {
+		k, ip := c06Oracle(e[1])
+		f = append(f, vutil.Hex(e[0]), vutil.Hex(e[1]), k, ip)
+	}
+	emit(f...)
+	qt := vutil.Pick(r, []int{1, 1, 28})
+	emit("C06.q", vutil.Hex(x), vutil.Itoa(qt))
+	k, ip := c06Oracle(upd[1])
+	emit("C06.race", vutil.Hex(x), vutil.Hex(y), vutil.Hex(upd[0]), vutil.Hex(upd[1]), k, ip,
+		vutil.Hex(x), vutil.Itoa(qt), vutil.Itoa(1500))
+	emit("C06.q", vutil.Hex(x), vutil.Itoa(qt))
+}
+
 func c06SeqGen(r *rand.Rand, emit vutil.Emit) {
 	blocks := vutil.N(2500)
 	for b := 0; b < blocks; b++ {
+		if b%25 == 7 {
+			c06RaceBlock(r, emit)
+
+			continue
+		}
 		u := c06NewUniv(r, r.IntN(3) == 0)
 		host := u.host(r)
 		if host == "" {
